@@ -17,6 +17,7 @@ import (
 	"github.com/nginx/kubernetes-ingress/internal/configs"
 	"github.com/nginx/kubernetes-ingress/internal/k8s/secrets"
 	"github.com/nginx/kubernetes-ingress/internal/metrics/collectors"
+	conf_v1 "github.com/nginx/kubernetes-ingress/pkg/apis/configuration/v1"
 	"github.com/nginx/kubernetes-ingress/pkg/apis/configuration/validation"
 )
 
@@ -55,6 +56,8 @@ func VerifC10NewCtl(cnf *configs.Configurator) *VerifC10Ctl {
 		validation.NewTransportServerValidator(true, true, false),
 		true, true, false, false)
 	lbc.namespaceLabeledLister = cache.NewStore(cache.DeletionHandlingMetaNamespaceKeyFunc)
+	lbc.globalConfigurationLister = cache.NewStore(cache.DeletionHandlingMetaNamespaceKeyFunc)
+	lbc.watchGlobalConfiguration = true
 	lbc.syncQueue = newTaskQueue(logger, lbc.sync)
 	// drain the events nobody reads
 	go func(r *record.FakeRecorder) {
@@ -143,9 +146,24 @@ func (v *VerifC10Ctl) StoreDelete(kind, ns, key string) bool {
 	return true
 }
 
-// Sync runs the real lbc.sync on one task; kind: ing | vs | ts | ns.
+// VerifC10GCKey is the key of the GlobalConfiguration the controller was started with.
+const VerifC10GCKey = "nginx-ingress/gc"
+
+// StoreGC puts the GlobalConfiguration into its informer store (nil: it was deleted).
+func (v *VerifC10Ctl) StoreGC(gc *conf_v1.GlobalConfiguration) {
+	s := v.lbc.globalConfigurationLister
+	if gc != nil {
+		_ = s.Add(gc)
+		return
+	}
+	if obj, exists, _ := s.GetByKey(VerifC10GCKey); exists {
+		_ = s.Delete(obj)
+	}
+}
+
+// Sync runs the real lbc.sync on one task; kind: ing | vs | ts | ns | gc.
 func (v *VerifC10Ctl) Sync(what, key string) {
-	k := map[string]kind{"ing": ingress, "vs": virtualserver, "ts": transportserver, "ns": namespace}[what]
+	k := map[string]kind{"ing": ingress, "vs": virtualserver, "ts": transportserver, "ns": namespace, "gc": globalConfiguration}[what]
 	v.lbc.sync(task{Kind: k, Key: key})
 }
 
